@@ -61,6 +61,9 @@ def run(ctx: Ctx, rep: Report) -> None:
         'bqskit/passes/control/predicates/single.py:'
         'ZXGatePredicate.get_truth_value',
         'bqskit/passes/rules/zxzxz.py:ZXZXZDecomposition.run')
+    from ..rules.guardemit import rule_flag_groups
+    rule_flag_groups(
+        ctx, rep, 'bqskit/passes/rules/zxzxz.py:ZXZXZDecomposition.run', 2)
 
 
 def wf_rule(ctx: Ctx, rep: Report) -> None:
